@@ -41,7 +41,8 @@ def oracle_pass(rep, lines, kinds=None, extra=None, known=None, maxrep=3):
     """always-on run of the independent oracle over the implementation's outputs (not only on disagreements);
     the python-side decoding (pure-python AES / CMAC) is spread over the cores when the oracle functions can be shipped to workers"""
     import pickle
-    io = core.run_lines(core.harness_bin(), lines)
+    last = getattr(rep, "last_run", None)
+    io = last[1] if last is not None and last[0] is lines else core.run_lines(core.harness_bin(), lines)
     try:
         pickle.dumps(extra)
         verdicts = core.pmap(_judge_one, [(l, o, kinds, extra) for l, o in zip(lines, io)])
